@@ -16,6 +16,7 @@ META = {
     "technique": "Coq proof (induction over line lists: _strip_inline_comment vs Python's comment rule, _collect_block vs Python's block rule, round trip of the block-skeleton parser over every layout of the re-layout relation; reflection over the translator-generated line-accounting table) + extracted-model correspondence with the real lexical functions, header regexes and the recorded _parse_simple_lines call tree + CPython tokenize/ast validation of the specification + re-layout metamorphism and line-accounting oracles on the real parse()+emit() with the REDUINO_VERIF hook + Coq model of the control-flow part of _emit_block / emit() with a C++ compound-statement reader as specification (induction over IR trees: the firmware's block tree and the conditions every line runs under are Python's) + block-structure oracle on the real firmware",
     "level_text": "Theorems C07_* (coq/Props/C07.v) are proved for all line lists about a Gallina model of the lexical layer of parser.py (Lang/Lex.v) against a hand-written model of Python's layout rules (Lang/PyLayout.v, validated against CPython's tokenizer and ast on every run). Block extent and comment stripping are proved inside explicit guards and refuted outside them by concrete witnesses (mixed tabs, '#' in a triple-quoted literal); comment-only lines at any column, trailing comments on column-0 headers and on elif/else/except are inside the guards since the repair of the comment handling (fixed findings, replayed on every run); the line-accounting table (69 statement kinds x 4 contexts) is regenerated from the current parser and checked by computation against the fixed set of the property plus the listed gaps; `continue` left the listed gaps with the repair of the parser (fixed finding, replayed on every run) and is pinned: translated in a for/while loop and at the level of the main loop, rejected outside any loop. The firmware side (Lang/EmitBlocks.v): _emit_block's treatment of IfStatement / WhileLoop / ForRangeLoop / TryStatement and the function / setup / loop sections of emit() are modelled line by line; read the way C++ groups lines into compound statements, the emitted lines are proved to be one stanza per branch, loop and handler around exactly its own lines (C07_emit_block_structure, C07_sketch_sections_structure), and - composed with the grouping of the lexical skeleton into IR nodes and with C07_roundtrip_partial - the compound statements of the firmware and the conditions each line runs under are proved to be those of Python's block tree for every layout inside the guard (C07_firmware_blocks_are_pythons_partial, C07_layout_to_firmware_partial, C07_firmware_paths_are_pythons_partial); the statement layer enters these theorems as arbitrary functions. The model is run against the real functions on enumerated and generated inputs; the property's own relations (same firmware across layouts; no unlisted line disappears; every control header of the script is in the firmware once and every numbered statement / break / continue / return runs in the function and under the chain of conditions Python gives it) are evaluated on the real transpiler.",
     "level_text_2": "Added: (a) the round trip at the level of parse() is PROVED (C07_top_roundtrip_partial, C07_top_relayout_invariant_partial: target(...) directives, import filter, column-0 while True / while / for / def, if / try chains through _collect_if/try_structure, simple statements; guard Layout.top_layout_ok) and composed with the firmware block theorems into one statement from source text to emitted C++ blocks (C07_script_to_firmware_partial, C07_two_layouts_same_firmware_partial). (b) the statement recognisers are inside the model: every RE_* pattern is translated from its parsed form into Lang/Rx.v (derivative matcher, C07_rx_match_decides), 63 of 74 are proved to be instances of five shapes, the dispatch loop of _parse_simple_lines (order, device-set guards) is regenerated from its source and pinned (C07_dispatch_chain_pinned); optional spacing between tokens is proved accepted for every spacing inside the exact guard (C07_call0_spacing_partial, C07_call_spacing_partial, C07_decl_spacing, C07_sleep_spacing) and refuted outside it by the witnesses of the two findings (C07_call_paren_space_refuted, C07_call_dot_space_refuted, C07_call_args_paren_space_refuted, C07_keyword_paren_refuted).",
+    "level_text_3": "Added (third round): the statement layer between the lexical skeleton and the emitted blocks. (c) variable promotion is inside the model (Lang/Promote.v: _rewrite_nodes, the if handler's local _rewrite, _make_promotion_decls, what the while / for / try / if handlers append): for EVERY set of promoted names and every node tree the rewritten tree holds the same statements in the same places (C07_promotion_rewrite_keeps_every_statement, C07_promotion_rewrite_if_keeps_every_statement, C07_promotion_rewrite_keeps_paths), no promoted name stays declared below (C07_promotion_rewrite_assigns_promoted), and a handler adds nothing but default-initialised placeholder declarations in front of the block (C07_promoted_loop_keeps_its_body, C07_promotion_adds_only_placeholders). (d) _emit_block's statement nodes next to the de-duplication sets it threads through setup() (Lang/EmitStmt.v): emitting = resolving the device declarations against the sets, then writing (C07_emit_resolves_then_writes); resolving touches no statement node (C07_resolve_keeps_every_statement); hence in every state of the sets, inside and outside setup(), the lines of every statement node and stanza are written, in order, as often as the script makes the statement (C07_statement_lines_written_in_every_state, C07_statement_line_count, C07_statements_ignore_the_sets, C07_outside_setup_sets_unchanged). Both models run against the real functions (_rewrite_nodes, _make_promotion_decls, _emit_block with given sets) on generated IR trees, and the theorems' relations are evaluated on the real outputs (oracle).",
     "level_note": "Trusted: Coq kernel, translator harness/gen/dispatch.py (black-box observation of parse+emit), extraction, OCaml driver, CPython tokenize/ast as 'what Python means'. Theorems are about the model. The RE_* patterns and the order / guards of the dispatch loop are regenerated from parser.py on every run (harness/gen/linerx.py, fail-closed) and run by a regex engine proved to decide the usual language of a regular expression.",
     "design_ref": "DESIGN.md section 4 C07, Appendix B.5",
 }
@@ -292,6 +293,22 @@ def run(ctx: C.Ctx):
         key, what, exp, obs = _structure_verdict(tops, r["cpp"])
         ctx.fail(what, {"script": lines, "firmware": [l for _, h, b in F.sections(r["cpp"]) for l in [h] + b + ["}"]]}, exp, obs, key=key)
     dist["block_structure_items"] = struct_kinds
+    rep_occ = rep_dup = asg_occ = asg_default_before_compound = 0
+    for tops in progs[rep_from:]:
+        seen_t = {}
+        for tmpl, meta, where in G.leaves(tops):
+            if meta[0] == "rep":
+                rep_occ += 1
+                seen_t[meta[1]] = seen_t.get(meta[1], 0) + 1
+            elif meta[0] == "asg":
+                asg_occ += 1
+        rep_dup += sum(v - 1 for v in seen_t.values() if v > 1)
+        asg_default_before_compound += _count_default_before_compound(tops)
+    dist["third_round"] = {"programs_with_repeated_statements": n_rep, "systematic_repeated": len(G.systematic_rep_programs()),
+                           "programs_with_promoted_assignments": n_asg, "systematic_assignment_programs": len(G.systematic_asg_programs()),
+                           "repeated_statement_occurrences": rep_occ, "occurrences_beyond_the_first": rep_dup, "assignment_statements": asg_occ,
+                           "default_valued_assignment_directly_before_compound": asg_default_before_compound,
+                           "reference_lines_learnt": {k: len(v) for k, v in sorted(REPLINES.items())}}
     dist["hollow_bodies"] = _count_hollow(progs)
 
     _tick("1 transpile + oracles A-C")
@@ -431,6 +448,7 @@ def run(ctx: C.Ctx):
         fin = S.flat_pn(tr)
         hit = [n for n in S.decl_names(fin) if n in p_]
         st_dist["rewrite_decl_of_promoted"] += len(hit)
+        st_dist["rewrite_default_decl_before_compound"] += S.default_decl_before_compound(fin, p_)
         if hit:
             nontrivial.add(("rewrite", repr(p_), repr(tr)))
         if ri["exc"]:
@@ -816,6 +834,8 @@ def run(ctx: C.Ctx):
                  "oracle C compares, per function of the sketch, the multiset of (path, item) - items: control headers, numbered statements, break / continue / return; path: function, enclosing loops / try / catch, and for a member of an if chain its own condition and the negated earlier ones - computed from the skeleton and from the firmware read with the C++ reader; the smallest failing script per class is shrunk by removing statements while the real transpiler still fails. "
                  "emitter: random IR control skeletons (depth <= 4, bodies empty with probability 0 / 0.3 / 0.6, 11 leaf node kinds incl. one that emits nothing and one that opens its own block, 5 indentations) plus all 81+8 placements of empty / line-less / non-empty bodies in a 3-branch chain, through the real _emit_block and the extracted emit_list (lines equal), whole hand-built Programs through the real emit() (sections), the extracted C++ reader against its Python twin on every emitted block and every real firmware section, and py_cs of the model (parse_lines -> to_ir) against the compound statements of the real firmware of every generated program. "
                  "recognisers: every RE_* pattern (extracted engine on the regenerated pattern vs the compiled pattern) on the pool of lines = hand-picked near-misses, header seeds, the probe lines of the 69 statement kinds, the statement lines of the generated programs, all spacing variants of the four statement shapes, and 700 (3000) random 1-3 character edits of those over {blank, tab, ( ) . : = # \" , _ x 1}, each after _strip_inline_comment; the dispatch loop on the same lines under three device-name environments (the real _parse_simple_lines runs with recording proxies in place of the module's RE_* objects: patterns tried in order with outcome, accepting step); spacing: every gap position over {none, blank, two blanks, tab} for led.on() / mon.write(..) / led = Led(..) / sleep(..) plus random statements over 7+26 methods, 10 classes, 10 receivers - CPython tokenize must give the same tokens, and inside the exact guard of the spacing theorems the real parser must build the same nodes as for the canonical spacing (oracle). "
+                 "third round: (a) programs whose statements are drawn WITH repetition from a pool of 3-6 texts out of 17 (pin_mode / digital_write / analog_write on two pins with changing modes, led.on/off/toggle, mon.write, sleep, x = / x +=) at every depth of setup(), a function and the main loop, plus an exhaustive family (every triple over {pin_mode(7, OUTPUT), pin_mode(7, INPUT), digital_write(7, HIGH)} with a repetition, wrapped in each block kind, in setup / main loop / function; every pool statement twice in a row and again after another one; every compound statement kind twice in a row with the same header and body); the C++ lines of a statement are learnt from a reference run of the statement alone and every occurrence must show them under the path Python gives it (multiset). (b) programs with assignments to fresh names at every depth (first assignment inside for / while / try / if bodies, hence promoted), default (0, 0.0, False, \"\") and other literals, directly in front of compound statements (1-3 initialisations in a row) or elsewhere, re-assigned and bumped later, own names per section, plus the exhaustive family 4 types x 4 outer block kinds x 4 inner compound kinds x {default, other}; every assignment must be in the firmware under its path as `name = E;` or `T name = E;` (file-scope definitions count for the top level of setup), left-over firmware assignments must be default-valued (placeholders). "
+                 "statement-layer IR: promotion rewrite on 160 (700) random trees + the boundary family (default / other value x 4 types x followed by if / while / for / try / simple / nothing x preceded by nothing / declaration / assignment) with 0-4 promoted names; _make_promotion_decls on 6 name lists x {top, nested}; _emit_block inside / outside setup() with empty and pre-filled sets on 120 (500) trees over 15 statement specs (drawn with repetition) and 12 device declarations. "
                  "non-trivial = a layout differing from the canonical one / a line the stripper changes / a non-empty span / a header text some regex matches."),
         "samples": samples,
         "distribution": {**dist, "programs": n_prog, "inguard_layouts": len(inguard), "perturbed_scripts": len(perturbed), "relayout_pairs": n_pairs,
@@ -827,13 +847,16 @@ def run(ctx: C.Ctx):
                   "around operators, inside call parentheses, before the header colon, after keywords (not between a callee and '(', not around '.', "
                   "not if(/while(/elif( without a blank, not `range (`). accounting: statement kinds outside DispatchSpec.known_gaps. "
                   "firmware block structure: simple statements whose C++ lines are closed pieces (every block they open they close: leaf_ok), elif/else only after if/elif and except only after try/except (chain_ok - Python's grammar); "
-                  "an `else` whose body yields no IR node is not written by the emitter - it cannot change what runs, the oracle accepts it present or absent; numbered statements are mon.write / x = / sleep lines."),
+                  "an `else` whose body yields no IR node is not written by the emitter - it cannot change what runs, the oracle accepts it present or absent; numbered statements are mon.write / x = / sleep lines. "
+                  "repeated statements: simple statements whose lines do not depend on where they stand (no device re-declaration in between); assignments: literal right-hand sides are compared after removing blanks and parentheses, `+=` / `v = v + k` by target and path only; a firmware assignment that no script statement accounts for is tolerated iff its right-hand side is the default of a C++ type (the placeholder declaration of a promoted name, or the assignment it becomes when the name is promoted a second time - an ADDED statement, which C07 does not forbid; whether the reset changes what the program computes is C01's question)."),
         "unmodelled": ["line continuation (backslash, open brackets) and multi-line string literals",
                        "the handlers behind the recognisers (argument extraction, IR construction): the dispatch loop is modelled up to the accepting step; which (kind, context) ends translated / rejected / ignored is still the observed table Gen/Dispatch.v",
                        "_handle_assignment_ast's decision to take a line (CPython's ast): enters the dispatch model as a boolean computed by the harness from CPython's ast and cross-checked against the real function on every case",
                        "target(...) inside a NESTED block header (`if target(\"x\"):`) - parse_m does not model the skip; at column 0 target(...) directives are modelled (Lex.top_target)",
                        "universally quantified dispatch theorems (which handler a whole family of lines reaches): proved are the recognisers' acceptance for every spacing inside the guard and the pinned order; the negative part (no earlier recogniser takes the line) is computed on concrete lines only",
-                       "the C++ lines a simple (non-control) node is emitted as: leaves of the IR model carry them as given (taken from the real emitter in the correspondence); hoisting of declarations / pinMode into setup() by emit(); variable promotion nodes the parser inserts before a block",
+                       "the C++ lines a simple (non-control) node is emitted as: leaves of the IR models carry them as given (taken from the real emitter in the correspondence); hoisting of declarations / pinMode into setup() by emit()",
+                       "WHICH names a handler promotes (_promote_branch_decls, the var_declared sets of the child contexts, _collect_order) and their types: Promote.v takes the list of names and the type table as given; the statement handlers that build VarDecl / VarAssign nodes (C01 / C02)",
+                       "device-table state of _emit_block other than the two de-duplication sets (a re-declared device changes the pin later statements use; LCD / animation counters): statement leaves of EmitStmt.v carry their lines as given",
                        "C++ compound statements are read line-wise (a line ending in `{` opens, a line `}` closes): braces inside string literals or several statements per line are outside the reader - the emitter writes one statement per line",
                        "non-ASCII identifier / digit characters in the patterns (\\w, \\d, \\b are modelled for ASCII; generated lines are ASCII plus Unicode blanks)",
                        "optional spacing around operators and commas inside argument / condition text (the recognisers see it as `.*`): re-layout oracle on the real transpiler only",
@@ -982,6 +1005,24 @@ def _shrink_structure(tops, key, budget=1500):
             break
         tops = found
     return tops
+
+
+def _count_default_before_compound(tops):
+    k = 0
+
+    def walk(ns):
+        nonlocal k
+        for i, n in enumerate(ns):
+            if n[0] == "leaf":
+                meta = n[2] if len(n) > 2 else ("plain",)
+                if meta[0] == "asg" and meta[2] in F.C_DEFAULTS and i + 1 < len(ns) and (ns[i + 1][0] == "block" or (
+                        ns[i + 1][0] == "leaf" and len(ns[i + 1]) > 2 and ns[i + 1][2][0] == "asg" and ns[i + 1][2][2] in F.C_DEFAULTS)):
+                    k += 1
+            else:
+                walk(n[3])
+    for t in tops:
+        walk(t[1] if t[0] == "chain" else t[2] if t[0] in ("main", "def") else [])
+    return k
 
 
 def _count_hollow(progs):
